@@ -528,6 +528,274 @@ def run_special_config(s, fam, kind, impl, sizes, mode):
     return ran
 
 
+# --------------------------------------------------------------------------
+#  [B] (twin mode only) bulk writes whose argument holds an UNUSABLE item at a
+#      position other than the first.  C09: "For the same history of public
+#      calls - with arguments inside or outside a family's domain - the C and
+#      the pure-Python implementation ... raise the same class of exception in
+#      the same situations, and end with equal contents, equal shape and equal
+#      serialized state ... writes with unusable keys or values raise
+#      TypeError".  The call is update(pairs) / update(dict) / the constructor
+#      from pairs / from a dict (sets: update(seq), |=, ^=, the constructor);
+#      its argument holds k usable items (new keys, keys already present with
+#      a different value, or both alternating; not in key order), then one
+#      item with a key outside the key domain or a value outside the value
+#      domain (or, sequences of pairs, an item that is a 1-tuple / 3-tuple:
+#      same exception class in both), then (every other case) one more usable
+#      item.  The container is
+#      fresh or holds 2 / 5 keys (several leaves at the small node sizes).
+#      Whatever part of the argument the package applies before it raises, the
+#      two implementations must have applied the SAME part: both raise
+#      TypeError, contents (type-sensitive) and __getstate__ structure are
+#      equal, each container is still sound (independent walk / _check for
+#      trees, strictly increasing keys, len, every entry readable through
+#      t[k] / k in t and either present before or offered by the call), and a
+#      short continuation of the history (insert, len, lookup, delete) agrees.
+#      The constructor is observed through a subclass whose __init__ catches
+#      the exception (the half-built object is what a subclass sees).
+# --------------------------------------------------------------------------
+BULK_FILL = (0, 2, 5)
+BULK_K = (1, 2, 3, 5)
+BULK_STYLES = ("new", "present", "mixed")
+_CATCHING = {}
+
+
+def catching(cls):
+    """subclass of cls whose constructor records the outcome of cls.__init__ instead of propagating it"""
+    if cls not in _CATCHING:
+        class Sub(cls):
+            def __init__(self, arg=None):         # interior nodes are made by type(self)() without arguments
+                self.outcome = ("ret", None)
+                try:
+                    if arg is None:
+                        cls.__init__(self)
+                    else:
+                        cls.__init__(self, arg)
+                except Exception as e:
+                    self.outcome = ("exc", type(e).__name__)
+        Sub.__name__ = Sub.__qualname__ = cls.__name__
+        Sub.__module__ = cls.__module__
+        _CATCHING[cls] = Sub
+    return _CATCHING[cls]
+
+
+def bulk_bad(fam, is_set):
+    """-> [(what, unusable key | MARK, unusable value | MARK)]: a representative subset of bad_arguments"""
+    bk, bv = bad_arguments(fam)
+    pick = lambda xs: [x for i, x in enumerate(xs) if i in (0, 1, 3, 4)]      # str, beyond the range, float, None (ints)
+    out = [("bad-key", b, H.MARK) for b in pick(bk)]
+    if not is_set:
+        out += [("bad-value", H.MARK, b) for b in pick(bv)]
+        out += [("bad-shape", H.MARK, 1), ("bad-shape", H.MARK, 3)]     # a 1-tuple / 3-tuple where a pair is due (sequences only)
+    return out
+
+
+def bulk_cases(fam, is_set):
+    entry = ["supdate", "ior", "ixor", "ctor"] if is_set else ["update", "update_dict", "ctor", "ctor_dict"]
+    cases, i = [], 0
+    for what, k_bad, v_bad in bulk_bad(fam, is_set):
+        for nfill in BULK_FILL:
+            for k in BULK_K:
+                for op in entry:
+                    if op.startswith("ctor") and nfill:
+                        continue                  # the constructor makes its own (fresh) container
+                    if what == "bad-shape" and op.endswith("_dict"):
+                        continue                  # a dict has pairs only
+                    i += 1
+                    style = BULK_STYLES[i % 3] if nfill else "new"
+                    cases.append(("B", op, what, k_bad, v_bad, nfill, k, style, i % 2))
+    return cases
+
+
+def bulk_argument(fam, is_set, case):
+    """-> (prefill keys, usable items before the unusable one, the unusable item, usable items after it)"""
+    _, op, what, k_bad, v_bad, nfill, k, style, tail = case
+    keys, vals = H.keys_of(fam, 14), H.values_of(fam)
+    fill = keys[1:2 * nfill:2]                    # odd keys: new keys fall before, between and after them
+    new = [x for x in keys[:12] if x not in fill]
+    new = new[1::2] + new[0::2][::-1]             # not in key order
+    present = fill[::-1]
+    pre = []
+    for j in range(k):
+        use_present = present and (style == "present" or style == "mixed" and j % 2 == 1)
+        key = present[j % len(present)] if use_present and j < len(present) else new.pop(0)
+        pre.append(key if is_set else (key, vals[1]))      # the fill stores vals[0]: a present key gets a different value
+    badkey = new.pop(0) if k_bad is H.MARK else k_bad
+    bad = badkey if is_set else (badkey, vals[0] if v_bad is H.MARK else v_bad)
+    if what == "bad-shape":
+        bad = (badkey,) if v_bad == 1 else (badkey, vals[0], vals[0])
+    post = [keys[13] if is_set else (keys[13], vals[0])] if tail else []
+    return fill, pre, bad, post
+
+
+def bulk_sound(t, is_set, is_tree, leaf, internal, allowed):
+    """-> None | text.  allowed: key -> the values it may hold (sets: key -> {None})"""
+    try:
+        pub = list(t) if is_set else list(t.items())
+        if len(t) != len(pub) or bool(t) != bool(pub):
+            return "len/bool %r/%r with %d entries" % (len(t), bool(t), len(pub))
+        ks = [x if is_set else x[0] for x in pub]
+        if any(not a < b for a, b in zip(ks, ks[1:])):
+            return "keys not strictly increasing: %r" % (ks,)
+        if is_tree:
+            t._check()
+            c = H.walk(t, is_set, leaf, internal)[0]
+            if c != pub:
+                return "the independent walk yields %r, iteration %r" % (c, pub)
+        for x in pub:
+            key, v = (x, None) if is_set else x
+            if key not in allowed or v not in allowed[key]:
+                return "entry %r was neither present before nor offered by the call" % (x,)
+            if key not in t or (not is_set and t[key] != v):
+                return "entry %r is listed but not found by lookup" % (x,)
+    except H.Damage as e:
+        return "damage: %s" % e
+    except AssertionError as e:
+        return "_check() rejected the container: %s" % e
+    except Exception as e:
+        return "inspecting the container raised %s: %s" % (type(e).__name__, e)
+    return None
+
+
+def run_bulk(case, note, cfg):
+    sc = Scenario(cfg, note)
+    fam, is_set, is_tree = sc.fam, sc.is_set, sc.is_tree
+    _, op, what, k_bad, v_bad, nfill, k, style, tail = case
+    vals = H.values_of(fam)
+    fill, pre, bad, post = bulk_argument(fam, is_set, case)
+    items = pre + [bad] + post
+    arg = dict(items) if op.endswith("_dict") else list(items)
+    tailkey = "%s:%s" % (op, what)
+
+    def done(f, pre_=False):
+        return {"evals": sc.evals, "fail": f, "tail": ("prepare:" if f and pre_ else "") + tailkey}
+
+    allowed = {}
+    for x in fill:
+        allowed.setdefault(x, set()).add(None if is_set else vals[0])
+    for x in pre + post:
+        key, v = (x, None) if is_set else x
+        allowed.setdefault(key, set()).add(v)
+    if op.startswith("ctor"):
+        sc.hist.append([op, repr(arg)])
+        note("constructor %s(%r)" % (sc.cls.__name__, arg))
+        sc.evals += 1
+        sc.t = catching(sc.cls)(arg)
+        sc.u = catching(sc.twin)(arg)
+        r, r2 = sc.t.outcome, sc.u.outcome
+    else:
+        for x in fill:
+            bad_ = sc.step(("add", x) if is_set else ("setitem", x, vals[0]))
+            if bad_:
+                return done(bad_, True)
+        call = (op, arg) if op == "update_dict" else (op, tuple(items))
+        sc.hist.append([op, repr(arg)])
+        note("call %s(%r)" % (op, arg))
+        sc.evals += 1
+        if op == "update_dict":
+            r, r2 = [("ret", H.MARK)] * 2
+            for who, t in ((0, sc.t), (1, sc.u)):
+                try:
+                    t.update(dict(arg))
+                except Exception as e:
+                    if who:
+                        r2 = ("exc", type(e).__name__)
+                    else:
+                        r = ("exc", type(e).__name__)
+        else:
+            r, r2 = H.apply_impl(sc.t, call), H.apply_impl(sc.u, call)
+    oc = lambda x: x[1] if x[0] == "exc" else "ret"
+    if oc(r) != oc(r2):
+        return done(sc.fail("twin-result", "%s(%r): %s %s, twin %s" % (op, arg, sc.impl, oc(r), oc(r2))))
+    if r[0] != "exc":
+        return done(sc.fail("accepted", "%s(%r) returned in both; item %d is outside the family's domain" % (op, arg, k)))
+    if r[1] != "TypeError" and what != "bad-shape":       # (for a malformed item the statement only asks for the same class)
+        return done(sc.fail("result", "%s(%r) raised %s in both; the statement asks for TypeError" % (op, arg, r[1])))
+    # ---- both raised TypeError: whatever was applied before, it is the same in both
+    sc.evals += 2
+    for who, t in ((sc.impl, sc.t), ("twin", sc.u)):
+        note("soundness of the %s container after %s" % (who, op))
+        txt = bulk_sound(t, is_set, is_tree, sc.leaf, sc.internal, allowed)
+        if txt:
+            name = who if who != "twin" else ("py" if sc.impl == "c" else "c")
+            return done(sc.fail("unsound-" + name, "after the TypeError of %s(%r) the %s container is unsound: %s" %
+                                (op, arg, name, txt)))
+    sc.evals += 2
+    ca, cb = typed(tuple(H.contents(sc.t, is_set))), typed(tuple(H.contents(sc.u, is_set)))
+    if ca != cb:
+        return done(sc.fail("twin-contents", "after the TypeError of %s(%r) [%d usable items before the unusable one, %d keys "
+                            "before the call] contents differ: %s %r, twin %r" %
+                            (op, arg, k, nfill, sc.impl, H.contents(sc.t, is_set), H.contents(sc.u, is_set))))
+    a, b = typed(state_sig(sc.t)), typed(state_sig(sc.u))
+    if a != b:
+        return done(sc.fail("twin-state", "after the TypeError of %s(%r) states differ: %r vs %r" % (op, arg, a, b)))
+    # ---- the history continues, in lockstep
+    k_new, k_old = H.keys_of(fam, 14)[12], (pre[0] if is_set else pre[0][0])
+    if is_set:
+        ops = [("add", k_new), ("len",), ("contains", k_old), ("discard", k_new), ("add", k_old)]
+    else:
+        ops = [("setitem", k_new, vals[1]), ("len",), ("get", k_old), ("pop", k_new, None), ("setitem", k_old, vals[0])]
+    for o in ops:
+        sc.hist.append(list(map(repr, o)))
+        note("call %r" % (o,))
+        sc.evals += 1
+        ra, rb = H.apply_impl(sc.t, o), H.apply_impl(sc.u, o)
+        if not H.same_result(ra, rb):
+            return done(sc.fail("later-twin-result", "after the TypeError of %s(%r), call %r: %s %r, twin %r" %
+                                (op, arg, o, sc.impl, ra, rb)))
+    a, b = typed(state_sig(sc.t)), typed(state_sig(sc.u))
+    if a != b:
+        return done(sc.fail("later-twin-state", "after the TypeError of %s(%r) and %r states differ: %r vs %r" %
+                            (op, arg, ops, a, b)))
+    return done(None)
+
+
+def run_bulk_config(s, fam, kind, impl, sizes):
+    is_set = kind in ("Set", "TreeSet")
+    is_tree = kind in ("BTree", "TreeSet")
+    leaf, internal = sizes if is_tree else (None, None)
+    cfg = dict(fam=fam, kind=kind, impl=impl, leaf=leaf, internal=internal, mode="twin", is_set=is_set, is_tree=is_tree)
+    cases = bulk_cases(fam, is_set)
+    tag = "%s%s" % (fam, kind)
+    state = {"fails": 0}
+
+    def fn(case, note):
+        r = run_bulk(case, note, cfg)
+        if r["fail"]:
+            state["fails"] += 1
+            r["stop"] = state["fails"] >= 6
+        return r
+
+    def stop(results):
+        return sum(1 for r in results if r[0] == "crash" or r[0] == "ok" and r[1]["fail"]) >= 6
+
+    results = H.guarded_cases(fn, cases, timeout=20, stop=stop)
+    ran = 0
+    for case, r in zip(cases, results):
+        if r[0] == "skipped":
+            continue
+        ran += 1
+        if r[0] == "crash":
+            s.evaluations += 1
+            what = "hang" if r[1] == 14 else "crash"
+            tail = "%s:%s" % (case[1], case[2])
+            f = {"what": what, "hist": [["case"] + list(map(repr, case))],
+                 "text": "the interpreter %s (signal %s) at: %s" % ("hung" if what == "hang" else "crashed", r[1], r[2])}
+        else:
+            s.evaluations += r[1]["evals"]
+            f, tail = r[1]["fail"], r[1]["tail"]
+        if f:
+            fill, pre, bad, post = bulk_argument(fam, is_set, case)
+            s.failures.append(Failure(
+                key="twin:%s:%s:bulk-partial:%s:%s" % ("py" if impl == "py" else "c", kind, f["what"], tail),
+                desc="%s vs %sPy sizes=%s: %s" % (tag, tag, sizes, f["text"]),
+                repro={"family": fam, "kind": kind, "impl": impl, "sizes": list(sizes), "case": list(map(repr, case)),
+                       "prefill": list(map(repr, fill)), "usable_before": list(map(repr, pre)), "unusable": repr(bad),
+                       "usable_after": list(map(repr, post)), "history": f["hist"]}))
+    s.distinct_nontrivial += ran
+    return ran
+
+
 def main():
     ap = argparse.ArgumentParser()
     ap.add_argument("--out")
@@ -564,6 +832,8 @@ def main():
                 for sz in (sizes if kind in ("BTree", "TreeSet") else [(None, None)]):
                     run_config(s, fam, kind, impl, sz, a.mode, 40 if qs else 400)
                     run_special_config(s, fam, kind, impl, sz, a.mode)
+                    if a.mode == "twin":
+                        run_bulk_config(s, fam, kind, impl, sz)
     s.samples = [{"family": "OO", "kind": "BTree", "sizes": [2, 2],
                   "history": "setitem(0,'a') setitem(1,'a') setitem(2,'a') delitem(1) ... (each call checked)"},
                  {"family": "II", "kind": "BTree", "sizes": [2, 2], "scenario": "E",
@@ -571,6 +841,20 @@ def main():
                              "__getstate__ list items == empty; popitem() -> KeyError; setitem(2,1) ... (each call checked)"},
                  {"family": "OO", "kind": "TreeSet", "sizes": [2, 2], "scenario": "S",
                   "history": "add(0) .. add(4) remove(2); s ^= s -> s, empty; add(7) contains(0) add(0) remove(7) len"}]
+    if a.mode == "twin":
+        s.bound += ("; PLUS (twin) [B] bulk writes with an unusable item at a later position: update(pairs), update(dict), the "
+                    "constructor from pairs / dict (sets: update(seq), |=, ^=, the constructor; the constructor observed through "
+                    "a subclass whose __init__ catches the exception) x unusable key / unusable value (str, int beyond the range, "
+                    "float, None; wrong-length / non-bytes for fs; an object with default comparison for object keys; "
+                    "pairs: a 1-tuple / 3-tuple item) x k = 1, 2, 3, 5 usable items before it (new keys / keys already present with a different value / alternating, "
+                    "not in key order) x container fresh or holding 2 / 5 keys x with / without one more usable item after it; "
+                    "after the TypeError of both: equal contents, equal __getstate__ structure, each container sound "
+                    "(independent walk, _check, sorted keys, len, lookups, no entry that was neither present nor offered), "
+                    "then insert / len / lookup / delete in lockstep")
+        s.rule += "; [B]: the cases run (distinct (entry point, unusable item, k, prefill, prefix style, tail))"
+        s.samples.append({"family": "II", "kind": "BTree", "sizes": [2, 2], "scenario": "B",
+                          "history": "t[1]=1 t[3]=1; t.update([(2,2),(3,2),(0,'x'),(13,1)]) -> TypeError in both; contents, "
+                                     "__getstate__ structure equal in IIBTree and IIBTreePy; both sound; t[12]=2 len get pop ..."})
     write_standin(a.out, s)
 
 
